@@ -73,6 +73,11 @@ pub trait Scenario: Sized + 'static {
     fn livelock_is_violation() -> bool {
         true
     }
+    /// Deviation cost of choosing an alternative other than the first at a quiescent point
+    /// (timed scenarios: the first alternative is "time passes", sends are the deviations).
+    fn quiescent_alt_cost() -> u32 {
+        0
+    }
 }
 
 // ---------------------------------------------------------------------------
@@ -870,7 +875,7 @@ fn worker<S: Scenario>(cfg: &S::Cfg, ecfg: &ExploreCfg, deadline: Instant, share
             let c = rec.choices[i];
             if i >= prefix.len() {
                 for alt in 1..p.n_alts {
-                    let cost = devs + if p.running { 1 } else { 0 };
+                    let cost = devs + if p.running { 1 } else { S::quiescent_alt_cost() };
                     if cost <= ecfg.max_dev {
                         let mut child = rec.choices[..i].to_vec();
                         child.push(alt);
@@ -880,6 +885,8 @@ fn worker<S: Scenario>(cfg: &S::Cfg, ecfg: &ExploreCfg, deadline: Instant, share
             }
             if p.running && c != 0 {
                 devs += 1;
+            } else if !p.running && c != 0 {
+                devs += S::quiescent_alt_cost();
             }
         }
         let mut over = n >= ecfg.max_execs || Instant::now() >= deadline;
